@@ -762,8 +762,16 @@ def g_apl(f):
     rng = f.rng
     items, wire = [], bytearray()
     for _ in range(rng.choice((0, 1, 1, 2, 5))):
-        fam = rng.choice((1, 2))
+        fam = rng.choice((1, 2, 1, 2, 1, 2, 3, 0, 65535))
         neg = rng.random() < 0.4
+        if fam not in (1, 2):
+            # RFC 3123 is open to other address families: the address part is opaque (1..127 octets, here without trailing zero octets)
+            n = rng.choice((0, 1, 2, 63, 64, 100, 127))
+            a = bytes(rng.randrange(256) for _ in range(max(n - 1, 0))) + (bytes([rng.randrange(1, 256)]) if n else b"")
+            pre = rng.choice((0, 8, 255, rng.randrange(256)))
+            wire += struct.pack("!HBB", fam, pre, len(a) | (0x80 if neg else 0)) + a
+            items.append((fam, neg, a.hex(), pre))
+            continue
         if fam == 1:
             a = f.ipv4()
             if rng.random() < 0.4:
